@@ -319,7 +319,14 @@ def select_summaries(prog, reviewed_keys=()):
             continue    # only functions that loop themselves; their callers are inlined as usual
         reach = [x for x in reachable_from(prog, [b]) if not x.is_derived]
         if eff.is_pure(b):
-            opaque.add(b.short)
+            # pure and looping: an uninterpreted application -- unless every loop walks a slice with the slice iterator, which
+            # E4 iterates concretely when the slice is a small constant (`is_one_of(m, &[A, B, C])`); inlining then keeps the
+            # identity facts (e.g. the method class) that an application would lose
+            from .mir import callee_of as _co
+            nexts = [(_co(t) or {}).get("resolved_path") or "" for _, t in b.calls() if ((_co(t) or {}).get("path") or "").endswith("::next")]
+            only_slice_iter = bool(nexts) and all("slice::Iter" in n_ or "slice::iter::Iter" in n_ for n_ in nexts) and len(b.loop_heads()) == 1
+            if not only_slice_iter:
+                opaque.add(b.short)
             continue
         bad = []
         for s in inventory(prog, reach):
